@@ -613,6 +613,12 @@ type fileCase struct {
 	UseTZ     bool              `json:"usetz"`
 	TZ        int               `json:"tz"`
 	Cancel    bool              `json:"cancel"`
+	Group     string            `json:"group,omitempty"`
+	Role      string            `json:"role,omitempty"`
+	// per-value number representation (replays): when present they override Number —
+	// the document / exactly the listed variables are decoded with UseNumber (json.Number), the rest as float64
+	NumDoc  *bool     `json:"numdoc,omitempty"`
+	NumVars *[]string `json:"numvars,omitempty"`
 }
 
 func famFile(e *emitter, path string) {
@@ -641,13 +647,29 @@ func famFile(e *emitter, path string) {
 		if fc.Vars != nil || fc.Int64Vars != nil {
 			vars = map[string]any{}
 			for k, v := range fc.Vars {
-				vars[k] = mustDoc(v, fc.Number)
+				num := fc.Number
+				if fc.NumVars != nil {
+					num = false
+					for _, n := range *fc.NumVars {
+						num = num || n == k
+					}
+				}
+				vars[k] = mustDoc(v, num)
 			}
 			for k, v := range fc.Int64Vars {
 				vars[k] = v
 			}
 		}
-		e.emit(caseSpec{family: fc.Family, text: fc.Text, doc: mustDoc(fc.Doc, fc.Number), vars: vars, useTZ: fc.UseTZ, tzOff: fc.TZ, cancel: fc.Cancel})
+		numDoc := fc.Number
+		if fc.NumDoc != nil {
+			numDoc = *fc.NumDoc
+		}
+		cs := caseSpec{family: fc.Family, text: fc.Text, doc: mustDoc(fc.Doc, numDoc), vars: vars, useTZ: fc.UseTZ, tzOff: fc.TZ, cancel: fc.Cancel,
+			group: fc.Group, role: fc.Role}
+		if fc.Family == "kv" {
+			cs.probe = kvRouteProbe
+		}
+		e.emit(cs)
 	}
 }
 
@@ -1018,7 +1040,7 @@ func famDT(g *gen, e *emitter, n int) {
 		for _, p := range precs {
 			base := strings.Split(p, "(")[0]
 			paths = append(paths,
-				"$ ? (@."+m+" == @."+m+")."+p,            // same string converted plainly first, then with a precision
+				"$ ? (@."+m+" == @."+m+")."+p, // same string converted plainly first, then with a precision
 				"$."+m+" < $."+p, "$."+p+" > $."+m, "$."+m+" == $."+p,
 				"$ ? (@."+base+"() == @."+p+")."+base+"().string()")
 		}
@@ -1055,7 +1077,6 @@ func famDT(g *gen, e *emitter, n int) {
 		}
 	}
 }
-
 
 // ---- C16: .keyvalue() ids do not depend on the route by which a document object is reached ----
 // "$[*] ? (C).keyvalue()" where C itself uses .keyvalue() (and may fail under it) must give every
